@@ -41,6 +41,9 @@ type Case struct {
 	// Flood: this many failing batches are sent first (a server must not wear
 	// out: leaked slots, counters, goroutines); then the batches follow.
 	Flood int
+	// Churn: this many rounds of sql.Open(grpc://...) / Query / Close in each
+	// of two goroutines at the same time, on the address the other handles use
+	Churn int
 }
 
 func (c *Case) Summary() string {
@@ -61,7 +64,7 @@ func (c *Case) Summary() string {
 		}
 		b.WriteString(" ]")
 	}
-	fmt.Fprintf(&b, " driver-queries[%d] error-flood=%d", len(c.DriverQs), c.Flood)
+	fmt.Fprintf(&b, " driver-queries[%d] error-flood=%d handle-churn=%d", len(c.DriverQs), c.Flood, c.Churn)
 	return b.String()
 }
 
@@ -223,6 +226,54 @@ func oracle(c *Case) (facts, error) {
 			}
 		}
 	}
+	if c.Churn > 0 && len(c.DriverQs) > 0 {
+		// short-lived database handles on one address, two at a time: whatever the
+		// driver shares between handles of an address must not be torn down under
+		// a handle that is still (or just) in use
+		var q *Q
+		for i := range c.DriverQs {
+			if !hasEmptyNode(c.DriverQs[i].Expr) && !d.Rejects(c.DriverQs[i].Expr, c.DriverQs[i].GroupBy) {
+				q = &c.DriverQs[i]
+				break
+			}
+		}
+		if q != nil {
+			text := queryparser.QueryToString(&pb.Query{Expr: fix.ToPB(q.Expr), GroupBy: q.GroupBy})
+			want := d.Query(q.Expr, q.GroupBy)
+			errs := make(chan error, 2)
+			for g := 0; g < 2; g++ {
+				go func(g int) {
+					errs <- fix.Safe(func() error {
+						for r := 0; r < c.Churn; r++ {
+							db, err := sql.Open("updog", "grpc://"+srv.Addr)
+							if err != nil {
+								return fmt.Errorf("goroutine %d round %d: sql.Open grpc: %v", g, r, err)
+							}
+							rows, err := db.Query(text)
+							if err != nil {
+								db.Close()
+								return fmt.Errorf("goroutine %d round %d: short-lived grpc handle: query %+q fails: %v (the file data source answers it)", g, r, text, err)
+							}
+							got, err := fix.ScanAll(rows)
+							db.Close()
+							if err != nil {
+								return fmt.Errorf("goroutine %d round %d: %v", g, r, err)
+							}
+							if err := fix.CheckRows(got, q.GroupBy, want); err != nil {
+								return fmt.Errorf("goroutine %d round %d: short-lived grpc handle: %v", g, r, err)
+							}
+						}
+						return nil
+					})
+				}(g)
+			}
+			for g := 0; g < 2; g++ {
+				if err := <-errs; err != nil {
+					return f, err
+				}
+			}
+		}
+	}
 	if !srv.Alive() {
 		return f, fmt.Errorf("server died: %s", clip(srv.Output()))
 	}
@@ -335,7 +386,7 @@ func drawCase(t *rapid.T, maxBatches int) *Case {
 	c := &Case{Writer: rapid.IntRange(0, fix.NWriters-1).Draw(t, "writer")}
 	c.Data = *gen.Dataset(t, gen.DataOpts{MaxRows: 30, IdentCols: true, MaxRecipeN: 3000, RecipeProb: 20})
 	gen.UTF8Spec(&c.Data)
-	c.ServerArgs = rapid.SampledFrom([][]string{{}, {"-c=false"}, {"-p"}, {"-c=false", "-p"}, {"-s", "2000"}}).Draw(t, "sargs")
+	c.ServerArgs = rapid.SampledFrom([][]string{{}, {"-c=false"}, {"-p"}, {"-c=false", "-p"}, {"-s", "2000"}, {"env:GOMAXPROCS=1"}, {"-p", "env:GOMAXPROCS=2"}, {"-c=false", "env:GOMAXPROCS=1"}}).Draw(t, "sargs")
 	d := model.NewData(c.Data.Rows())
 	pool := gen.NewLeafPool(d)
 	nb := rapid.IntRange(1, maxBatches).Draw(t, "nbatches")
@@ -375,6 +426,9 @@ func drawCase(t *rapid.T, maxBatches int) *Case {
 	nd := rapid.IntRange(0, 4).Draw(t, "ndriver")
 	for i := 0; i < nd; i++ {
 		c.DriverQs = append(c.DriverQs, drawQ(t, pool, c.Data.Recipe != nil, rapid.IntRange(0, 5).Draw(t, "dinv") == 0))
+	}
+	if nd > 0 && rapid.IntRange(0, 5).Draw(t, "churn?") == 0 {
+		c.Churn = rapid.SampledFrom([]int{20, 60, 150}).Draw(t, "churn")
 	}
 	return c
 }
